@@ -1,10 +1,18 @@
 #!/bin/sh
-# tools/merge_ws.sh <WS>: bring a finished work-stream into /verif (branch wip/<WS>) and list
-# its fix: commits (branch fixes/<WS> of /repo) for cherry-picking.
-set -e
-ws="$1"
-cd /verif
-git merge --no-ff -m "Merge work-stream $ws" wip/$ws || { echo "MERGE CONFLICT — resolve, then commit"; exit 1; }
+# tools/merge_ws.sh <WS>…: merge finished/milestone work-streams (branch wip/<WS>) into /verif main.
+# Generated files (MANIFEST.json, known_findings.json, evidence/*.json) are resolved to "ours" and regenerated.
+cd /verif || exit 1
+for ws in "$@"; do
+  if ! git merge --no-ff -q -m "Merge work-stream $ws" wip/$ws >/dev/null 2>&1; then
+    for f in $(git diff --name-only --diff-filter=U); do
+      case "$f" in
+        MANIFEST.json|known_findings.json|evidence/*.json|lean/ActixModel/Consts.lean) git checkout --ours -- "$f" 2>/dev/null; git add "$f";;
+        *) echo "UNRESOLVED $ws: $f";;
+      esac
+    done
+    if [ -n "$(git diff --name-only --diff-filter=U)" ]; then echo "merge of $ws needs manual resolution"; exit 1; fi
+    git commit -q -m "Merge work-stream $ws"
+  fi
+  echo "merged $ws"
+done
 python3 tools/gen_manifest.py
-echo "--- fix commits on fixes/$ws (cherry-pick into /repo with: git -C /repo cherry-pick <hash>):"
-git -C /repo log --oneline main..fixes/$ws || true
